@@ -16,6 +16,16 @@ pub mod c21;
 pub mod c26;
 pub mod c27;
 pub mod c28;
+pub mod c22;
+pub mod c23;
+pub mod c29;
+pub mod c30;
+pub mod c20;
+pub mod c18;
+pub mod c19;
+pub mod c09;
+pub mod c34;
+pub mod formula_gen;
 
 pub fn registry() -> Vec<Prop> {
     vec![
@@ -27,5 +37,14 @@ pub fn registry() -> Vec<Prop> {
         Prop { id: "C26", run: c26::run, replay: c26::replay },
         Prop { id: "C27", run: c27::run, replay: c27::replay },
         Prop { id: "C28", run: c28::run, replay: c28::replay },
+        Prop { id: "C22", run: c22::run, replay: c22::replay },
+        Prop { id: "C23", run: c23::run, replay: c23::replay },
+        Prop { id: "C29", run: c29::run, replay: c29::replay },
+        Prop { id: "C30", run: c30::run, replay: c30::replay },
+        Prop { id: "C20", run: c20::run, replay: c20::replay },
+        Prop { id: "C18", run: c18::run, replay: c18::replay },
+        Prop { id: "C19", run: c19::run, replay: c19::replay },
+        Prop { id: "C09", run: c09::run, replay: c09::replay },
+        Prop { id: "C34", run: c34::run, replay: c34::replay },
     ]
 }
